@@ -1,6 +1,7 @@
 #!/bin/bash
 # try_seed.sh <seed-id> <prop>...: apply the seeded change to /repo, run the quick checks of the given properties, revert
 s=$1; shift
+export VERIF_EVIDENCE_DIR=/var/tmp/dw-seed-evidence VERIF_REPLAY_DIR=/var/tmp/dw-seed-replays
 git -C /repo apply /verif/seeded/$s/patch.diff || exit 2
 for p in "$@"; do
   out=$(cd /verif && ./dwv check $p 2>&1 | grep -v WARNING)
